@@ -99,6 +99,10 @@ impl OutstationTask {
 
     /// run the outstation task asynchronously until a `SessionError` occurs
     pub(crate) async fn run(&mut self, io: &mut PhysLayer) -> RunError {
+        // the previous session may have been cancelled before it reached the resets below
+        self.reader.reset();
+        self.writer.reset();
+
         let res = self
             .session
             .run(io, &mut self.reader, &mut self.writer, &mut self.database)
